@@ -58,7 +58,7 @@ func (obj DoubleFloat) Simplify() any {
 func (obj DoubleFloat) Equal(other Object) (eq bool) {
 	switch to := other.(type) {
 	case Fixnum:
-		eq = obj == DoubleFloat(to)
+		eq = to.equalFloat(float64(obj))
 	case Octet:
 		eq = obj == DoubleFloat(to)
 	case SingleFloat:
